@@ -37,7 +37,7 @@ func (r DNS53) resolve(ctx context.Context, q query.Query, buf []byte, addr stri
 	// RFC1035, section 7.4: The results of an inverse query should not be cached
 	if q.Type != query.TypePTR && r.Cache != nil {
 		now = time.Now()
-		if v, found := r.Cache.Get(cacheKey{"", q.Class, q.Type, q.Name}); found {
+		if v, found := r.Cache.Get(newCacheKey("", q)); found {
 			if v, ok := v.(*cacheValue); ok {
 				var minTTL uint32
 				n, minTTL = v.AdjustedResponse(buf, q.ID, r.CacheMaxAge, r.MaxTTL, now)
@@ -84,7 +84,7 @@ func (r DNS53) resolve(ctx context.Context, q query.Query, buf []byte, addr stri
 			msg:  make([]byte, n),
 		}
 		copy(v.msg, buf[:n])
-		r.Cache.Add(cacheKey{"", q.Class, q.Type, q.Name}, v)
+		r.Cache.Add(newCacheKey("", q), v)
 	}
 	if r.MaxTTL > 0 {
 		updateTTL(buf[:n], 0, 0, r.MaxTTL)
